@@ -847,5 +847,7 @@ def sides(world, S):
     for p in world.pairs:
         if p['src'] not in S['wbs'] or p['copy'] not in S['wbs']:
             continue
-        out.append((p, set(p['map'].values()) | {p['src']}, set(p['map'].keys()) | {p['copy']}))
+        # sides are the CURRENT members of the two WBSs (tasks may have migrated since the copy)
+        out.append((p, set(dfs(S, S['wbs'][p['src']]['roots'])) | {p['src']},
+                    set(dfs(S, S['wbs'][p['copy']]['roots'])) | {p['copy']}))
     return out
